@@ -8,10 +8,15 @@ var pipeProtocols = [4]Protocol{ProtocolConnect, ProtocolGRPC, ProtocolGRPCWeb, 
 // 2 = quick configurations with a deep response side.
 var pipeThoroughSlice int
 
+// pipeSliceCount: how many slices the harness being run distinguishes (hC03Pipe adds a fourth: every error
+// code and several error messages on quick configurations and messages)
+var pipeSliceCount = 3
+
 const (
 	sliceWideCfg = iota
 	sliceDeepReq
 	sliceDeepResp
+	sliceDeepScript
 )
 
 func wideCfg() bool { return verifTier() == 1 && pipeThoroughSlice == sliceWideCfg }
@@ -21,7 +26,7 @@ func wideCfg() bool { return verifTier() == 1 && pipeThoroughSlice == sliceWideC
 // thorough (slice 0) adds multi-protocol and multi-codec services.
 func pickPipeCfg() (*pipeCfg, bool) {
 	if verifTier() == 1 {
-		pipeThoroughSlice = verifChoose("thoroughSlice", 3)
+		pipeThoroughSlice = verifChoose("thoroughSlice", pipeSliceCount)
 	}
 	return pickPipeCfgSlice()
 }
